@@ -7,10 +7,119 @@ against coq/Model/C18_Logbook.v.
 """
 import copy
 import itertools
+import os
 import pickle
 import re
 
+import vlib
 from vlib import cz, czl, cbool, copt, clist
+
+# ----------------------------------------------------------------------------
+# tie (T): regenerate coq/Gen/C18_gen.v from the working tree (harness/c18_py2coq.py)
+# ----------------------------------------------------------------------------
+GEN = os.path.join(vlib.COQ, "Gen", "C18_gen.v")
+METHOD_OF = {"record": "Logbook.record", "select": "Logbook.select", "pop": "Logbook.pop", "delitem": "Logbook.__delitem__",
+             "stream": "Logbook.stream", "st_register": "Statistics.register", "st_compile": "Statistics.compile",
+             "ms_compile": "MultiStatistics.compile", "ms_register": "MultiStatistics.register"}
+
+
+def _typechecks(txt):
+    """does the regenerated text compile?  -> (ok, line number of the first error or None)"""
+    import subprocess
+    import tempfile
+    d = tempfile.mkdtemp(prefix="c18gen_")
+    try:
+        fn = os.path.join(d, "C18_gen_probe.v")
+        with open(fn, "w") as f:
+            f.write(txt)
+        p = subprocess.run(["timeout", "300", "coqc", "-Q", vlib.COQ, "DV", "-w", "none", fn], cwd=d,
+                           stdout=subprocess.PIPE, stderr=subprocess.STDOUT, text=True)
+        if p.returncode == 0:
+            return True, None
+        m = re.search(r'line (\d+), characters', p.stdout)
+        return ("Error" not in p.stdout), (int(m.group(1)) if m else None)   # killed without a Coq error: no verdict
+    finally:
+        import shutil
+        shutil.rmtree(d, ignore_errors=True)
+
+
+def regen(repo=None):
+    """Returns (ok, message, status) -- status: method key -> None (translated) | Refuse (placeholder = hand model's
+    form of the method); ok is False when nothing could be translated.  A regenerated definition that does not
+    type-check counts as a refusal of that method."""
+    import c18_py2coq
+    repo = repo or vlib.REPO
+    forced = tuple(x for x in os.environ.get("C18_FORCE_REFUSE", "").split(",") if x)
+    extra = {}
+    try:
+        txt, status = c18_py2coq.translate_repo(repo, forced)
+        if os.path.exists(os.path.join(vlib.COQ, "Model", "C18_GenRt.vo")):
+            for _ in range(len(status)):
+                ok, line = _typechecks(txt)
+                if ok:
+                    break
+                # find the definition the error is in, refuse it, translate again
+                lines = txt.split("\n")[:line or 0]
+                keys = [k for k in c18_py2coq.ORDER
+                        if any(l.startswith(c18_py2coq.FUNCS[k][6].split(" (")[0].split(" {")[0] + " ") for l in lines)]
+                bad = keys[-1] if keys else None
+                if bad is None or bad in extra:
+                    raise RuntimeError("regenerated text does not compile (line %s)" % line)
+                extra[bad] = c18_py2coq.Refuse("FunctionDef", "the regenerated definition does not type-check")
+                txt, status = c18_py2coq.translate_repo(repo, forced + tuple(extra))
+                for k, v in extra.items():
+                    status[k] = v
+    except Exception as e:  # noqa  (a translator crash is a refusal of everything: fail closed)
+        r = c18_py2coq.Refuse("Module", "translator error %s: %s" % (type(e).__name__, e))
+        txt, status = c18_py2coq.translate_source("\x00")     # all placeholders
+        status = {k: r for k in status}
+    with vlib.BuildLock():
+        os.makedirs(os.path.dirname(GEN), exist_ok=True)
+        old = open(GEN).read() if os.path.exists(GEN) else None
+        if old != txt:
+            with open(GEN, "w") as f:
+                f.write(txt)
+    done = [METHOD_OF[k] for k, v in status.items() if v is None]
+    refused = ["%s (%s)" % (METHOD_OF[k], v) for k, v in status.items() if v is not None]
+    msg = "regenerated: %s" % (", ".join(done) or "nothing")
+    if refused:
+        msg += "; translator refused: " + "; ".join(refused)
+    return bool(done), msg, status
+
+
+def tie_T(run):
+    """Regenerate, re-prove `regenerated = hand model` and the theorems on the regenerated definitions.
+    Returns (check function of the correspondence, requires, translated-but-not-proved flag)."""
+    ok, msg, status = regen()
+    refused = {k: v for k, v in status.items() if v is not None}
+    done = [METHOD_OF[k] for k, v in status.items() if v is None]
+    run.extra_cov["regenerated_functions"] = done
+    run.extra_cov["translator_refused"] = {METHOD_OF[k]: str(v) for k, v in refused.items()}
+    for k, v in refused.items():
+        run.notes.append("tie: correspondence-only (translator refused %s at line %s in %s: %s)"
+                         % (v.node, v.line, METHOD_OF[k], v.why))
+    if not ok:
+        run.extra_cov["tie"] = "correspondence-only (%s)" % msg
+        return "check", [], False
+    gen_ok = run.build_props(props="Props/C18_gen.v", extra=["Corr/C18_gen.v"])
+    if gen_ok:
+        run.notes.append("tie: regenerated (%s)" % ", ".join(done))
+        run.extra_cov["tie"] = ("translation (regenerated methods proved equal to the hand model: %s) + correspondence%s"
+                                % (", ".join(done), "; correspondence-only for " + ", ".join(
+                                    sorted(METHOD_OF[k] for k in refused)) if refused else ""))
+        run.trusted.append("translator harness/c18_py2coq.py and its signature table (source text -> coq/Gen/C18_gen.v) with "
+                           "the run-time vocabulary coq/Model/C18_GenRt.v (state-and-exception monad, list.pop / list.append / "
+                           "self.chapters / slice.indices primitives, the unmodelled text self.__str__); the regenerated methods "
+                           "are proved equal to the hand model (Proofs/C18_gen_equiv.v) and evaluated against the implementation "
+                           "on every run")
+        return "check_both", ["From DV Require Import Corr.C18_gen."], False
+    run.extra_cov["tie"] = "translator succeeded but the regenerated definitions are no longer (provably) the model"
+    try:        # keep the offending text for the replay
+        with open(os.path.join(run.rundir, "C18_gen.v.broken"), "w") as f:
+            f.write(open(GEN).read())
+    except OSError:
+        pass
+    return "check", [], True
 
 # ----------------------------------------------------------------------------
 # names <-> integer codes (the model's `name`)
@@ -658,6 +767,51 @@ def rand_history(rng, uniform):
     return ops, shape
 
 
+def rand_history_wide(rng):
+    """Beyond the sizes of the regular generators (used only after the tie (T) broke: a regenerated definition that
+    is no longer the model may differ from it only on long logbooks / far-away indices): 30..70 records with streams
+    in between, then pops / deletions / slices over the whole index range and more streams."""
+    shape = rand_shape(rng)
+    ops, ref, nrec = [], [], 0
+    for _ in range(rng.randint(30, 70)):
+        ops.append(("record", rand_infos(rng, nrec, shape, True), None))
+        ref.append(nrec)
+        nrec += 1
+        if rng.random() < 0.04:
+            ops.append(("stream",))
+    for _ in range(rng.randint(6, 16)):
+        r = rng.random()
+        if r < 0.3:
+            ops.append(("stream",))
+        elif r < 0.55:
+            i = rand_index(rng, len(ref))
+            ops.append(("pop", i))
+            try:
+                ref.pop(i)
+            except IndexError:
+                pass
+        elif r < 0.75:
+            i = rand_index(rng, len(ref))
+            ops.append(("delitem", i))
+            try:
+                del ref[i]
+            except IndexError:
+                pass
+        elif r < 0.9:
+            a, b = rand_bound(rng, len(ref)), rand_bound(rng, len(ref))
+            c = rng.choice([None, 1, 2, 7, -1, -3])
+            if len(range(*slice(a, b, c).indices(len(ref)))) > 8:
+                continue
+            ops.append(("delslice", a, b, c))
+            del ref[slice(a, b, c)]
+        else:
+            ops.append(("record", rand_infos(rng, nrec, shape, True), None))
+            ref.append(nrec)
+            nrec += 1
+    ops.append(("stream",))
+    return ops, shape
+
+
 def hist_case(run, tools, ops, uniform, kind, terms, cases, sample=False, shape=None):
     ops, steps, fin, viols = run_history(tools, ops, uniform)
     case = {"kind": kind, "uniform_chapters": uniform, "ops": [repr(o) for o in ops]}
@@ -982,6 +1136,8 @@ def main(run):
     phases = {}
     t0 = time.time()
     run.build_props()
+    # ---- tie (T): regenerate Gen/C18_gen.v from the working tree, re-prove `regenerated = model` and the theorems
+    gen_check, gen_reqs, gen_unproved = tie_T(run)
     phases["build"] = round(time.time() - t0, 1)
     rng = run.rng
 
@@ -1007,6 +1163,7 @@ def main(run):
         t, c = trie_cases(run, tools, "two", 5, subset=SMALL)
         terms += t
         cases += c
+    n_two = len(terms)
     for kind in ("flat", "sub", "three"):
         # sub / three: the caller keeps one dictionary object per chapter (and sub-chapter), cleared and refilled
         t, c = trie_cases(run, tools, kind, run.scale(3, 4), prefix_len=run.scale(1, 2),
@@ -1015,7 +1172,13 @@ def main(run):
         cases += c
     phases["exhaustive_python"] = round(time.time() - t0 - phases["build"], 1)
     t1 = time.time()
-    run.correspond("exhaustive", "C18", terms, cases, shard=max(1, (len(terms) + 15) // 16))
+    # the regenerated definitions are evaluated next to the hand model on the smaller exhaustive groups, on all
+    # random histories and on all statistics cases (check_both); the large two-chapter trie uses the hand model alone
+    nbig = n_two
+    run.correspond("exhaustive", "C18", terms[:nbig], cases[:nbig], shard=max(1, (nbig + 15) // 16))
+    run.correspond("exhaustive_small", "C18", terms[nbig:], cases[nbig:], check=gen_check, requires=gen_reqs,
+                   shard=max(1, (len(terms) - nbig + 7) // 8))
+    gen_evaluated = len(terms) - nbig if gen_check != "check" else 0
     phases["exhaustive_coq"] = round(time.time() - t1, 1)
     t1 = time.time()
 
@@ -1028,7 +1191,41 @@ def main(run):
         uniform = rng.random() < 0.85
         ops, shape = rand_history(rng, uniform)
         hist_case(run, tools, ops, uniform, "random", terms, cases, sample=it < 3, shape=shape)
-    run.correspond("random", "C18", terms, cases)
+    run.correspond("random", "C18", terms, cases, check=gen_check, requires=gen_reqs)
+    gen_evaluated += len(terms) if gen_check != "check" else 0
+    if gen_unproved:
+        # translated but not provably the model: do the regenerated definitions at least agree with the implementation?
+        diag_terms, diag_cases = list(terms), list(cases)
+        # the regenerated definitions are no longer provably the model: search beyond the regular sizes for an
+        # input on which the implementation leaves the property / the model
+        terms, cases = [], []
+        for it in range(run.scale(120, 600)):
+            ops, shape = rand_history_wide(rng)
+            hist_case(run, tools, ops, True, "wide search after the tie (T) broke", terms, cases, shape=shape)
+        run.correspond("wide", "C18", terms, cases, shard=20)
+        run.notes.append("tie (T) broke: %d long histories (30..70 records, full index range) searched in addition" % len(terms))
+        diag_terms += terms
+        diag_cases += cases
+        ok_, out = vlib.make_targets(["Corr/C18_gen.vo"])
+        if ok_:
+            traces, ndis = run.traces, len(run.disagreements)
+            try:
+                bad = run.correspond("diagnosis_regenerated", "C18", diag_terms, diag_cases, check="check_gen",
+                                     requires=["From DV Require Import Corr.C18_gen."], shard=40)
+                errs = run.corr_groups.get("diagnosis_regenerated", {}).get("errors")
+                ng = None if errs else len(bad)
+            except Exception as e:  # noqa
+                ng = None
+                run.notes.append("diagnosis step failed: %r" % (e,))
+            finally:
+                run.traces = traces
+                del run.disagreements[ndis:]
+                run.corr_groups.pop("diagnosis_regenerated", None)
+            run.notes.append("diagnosis: the regenerated definitions (not provably equal to the model) disagree with the "
+                             "implementation on %s of %d random / long histories" % (ng, len(diag_terms)))
+            run.extra_cov["regenerated_vs_implementation"] = {"sampled": len(diag_terms), "disagree": ng}
+        else:
+            run.notes.append("diagnosis: the regenerated definitions do not compile: " + out[-400:])
     phases["random"] = round(time.time() - t1, 1)
     t1 = time.time()
 
@@ -1036,6 +1233,8 @@ def main(run):
     terms, cases = [], []
     stats_cases(run, tools, run.scale(300, 4000), terms, cases)
     statslog_cases(run, tools, run.scale(150, 2000), terms, cases)
-    run.correspond("statistics", "C18", terms, cases)
+    run.correspond("statistics", "C18", terms, cases, check=gen_check, requires=gen_reqs)
+    gen_evaluated += len(terms) if gen_check != "check" else 0
+    run.extra_cov["cases_also_evaluated_on_regenerated_definitions"] = gen_evaluated
     phases["statistics"] = round(time.time() - t1, 1)
     run.extra_cov["phase_seconds"] = phases
